@@ -309,6 +309,9 @@ func eqStackMerge(c *Ctx, a *flAgg) {
 		}
 		if e := cells["Elided"]; e == nil || e.String() != q.l+".Elided" {
 			a.bad("EQ-merge-show", "Stack.merge/elided", "Elided is not the left stack's", pos)
+			a.bad("EQ-merge-class", "Stack.merge/keeps-elided", "the merged stack does not keep the Elided flag its members share: Stack.similar compares it, so the merged key leaves the similarity class of its bucket and later members open a new one", pos)
+		} else {
+			a.ok("EQ-merge-class", "Stack.merge/keeps-elided", "the merged stack keeps the Elided flag, which similarity compares", pos)
 		}
 		// every executed iteration i stores dst[i] = left.Calls[i].merge(&right.Calls[i])
 		n := 0
